@@ -318,11 +318,14 @@ class BootEngine(object):
             lossy = self.policy.active and self.policy.rate("req_loss") > 0
             if status == "ok" and val is False:
                 w.probe("mc_boot_already_booted")
-                if not (only and was_booted):
+                # (a boot sent earlier with a short post_boot_delay may
+                # complete while this call is probing: judge the machine's
+                # state now, not at the start of the call)
+                if not (only and m.booted):
                     w.violate("MC", "MachineController.boot returned False "
-                              "(already booted) but the machine was %s and "
+                              "(already booted) but the machine is %s and "
                               "only_if_needed=%r" % (
-                                  "booted" if was_booted else "not booted",
+                                  "booted" if m.booted else "not booted",
                                   only), kind="false-return")
                 if self.cur:
                     w.violate("MC", "boot datagrams sent to a machine "
@@ -336,7 +339,7 @@ class BootEngine(object):
                 if isinstance(val, self.scp.TimeoutError):
                     w.violate("MC", "MachineController.boot leaked %s"
                               % type(val).__name__, kind="leaked-timeout")
-                if not lossy and not was_booted:
+                if not lossy and not was_booted and not m.booted:
                     w.violate("MC", "nothing was lost but "
                               "MachineController.boot raised %s"
                               % type(val).__name__, kind="boot-failed-clean")
